@@ -12,6 +12,10 @@ objects and state classes, real `Settings` / `EventBus`) against scripted collab
       ('state', k, old, new)        TransferStateListener event
       ('cycle', [k...], info)       manage_transfers ran and created tasks for these transfers
   Used by props/c05.py and props/c06.py.
+
+Opt-in knobs (defaults keep the behaviour every user of the rig had before): `Rig(..., teardown=n)` — a CANCELLED network
+step needs n more loop iterations to unwind (a real connection attempt closes its socket first); `rig.unshared` — remote
+paths the shares stub no longer finds (`find_shared_item`, `find_shared_item_cache`).
 """
 from __future__ import annotations
 
